@@ -1,4 +1,5 @@
 import Stbem.Model.Assembly
+import Stbem.Gen.SLRest
 import Driver.Util
 /- Line protocol for the assembly / cache model (`asm …`), token leaves.
 
@@ -141,19 +142,38 @@ def parseEvent? {K I : Type} (mkInp : Nat → Var → List TE → List TE → I)
     else none
   | _ => none
 
-def runHist {K I O : Type} [DecidableEq K] (S : Spec K I How O) (showRes : I → Except String O → String)
+def runHistWith {K I O : Type} [DecidableEq K] (stepF : Dir K O → Event K I How → Dir K O × Option (Except String O))
+    (showRes : I → Except String O → String)
     (inpOf : Event K I How → Option I) (evs : List (Event K I How × K)) : String :=
   let rec go (d : Dir K O) (evs : List (Event K I How × K)) (acc : List String) : List String :=
     match evs with
     | [] => acc.reverse
     | (e, k) :: rest =>
-      let r := step S d e
+      let r := stepF d e
       let st := showState (r.1 k)
       let out := match r.2, inpOf e with
         | some o, some i => "ret:" ++ showRes i o ++ ":" ++ st
         | _, _ => st
       go r.1 rest (out :: acc)
   " | ".intercalate (go Dir.empty evs [])
+
+def runHist {K I O : Type} [DecidableEq K] (S : Spec K I How O) (showRes : I → Except String O → String)
+    (inpOf : Event K I How → Option I) (evs : List (Event K I How × K)) : String :=
+  runHistWith (step S) showRes inpOf evs
+
+/-- `bilform_matrix` REGENERATED from src/single_layer.py (Stbem.Gen.SLRest) on token leaves: `cpu_count` = the number of
+workers of the request, the chunk size is the one the generated code computes -/
+def genMat (L : Leaf TE Nat) (c : Nat × Var) (cacheSet : Bool) (d : Dir SLKey (Mat Nat)) (ts tr : List TE) (how : How)
+    (sv : SaveOutcome) : Dir SLKey (Mat Nat) × Except String (Mat Nat) :=
+  Stbem.Gen.SLRest.bilform_matrix L.bil (fun e => (e.t0, e.t1)) [] cacheSet (curveName c.1) reprTE c.2.2.1 c.2.2.2 id
+    how.sched.workers how.sched.assign how.sched.order sv d (some ts) (some tr) how.useMp
+
+/-- a history executed by the generated method (calls, crashes); the file-system events are the model's -/
+def gstep (d : Dir SLKey (Mat Nat)) :
+    Event SLKey ((Nat × Var) × List TE × List TE) How → Dir SLKey (Mat Nat) × Option (Except String (Mat Nat))
+  | .call inp how sv => let r := genMat (slFamily.leaf inp.1) inp.1 true d inp.2.1 inp.2.2 how sv; (r.1, some r.2)
+  | .crash inp how sv => ((genMat (slFamily.leaf inp.1) inp.1 true d inp.2.1 inp.2.2 how sv).1, none)
+  | e => step slS d e
 
 def inpOfEvent {K I : Type} : Event K I How → Option I
   | .call i _ _ => some i
@@ -170,6 +190,19 @@ def asmCmd (args : List String) : String :=
         showMatRes ts.length tr.length (computeMatrix (tokenLeaf (leaf.startsWith "c") k) ts tr how)
       | none => "bad-how"
     | _, _, _ => "bad-args"
+  | ["asm", "gmat", leaf, mp, w, ch, ord, ts, tr] =>
+    match parseTEs? ts, parseTEs? tr, (leaf.drop 1).toString.toNat? with
+    | some ts, some tr, some k =>
+      match parseHow? mp w ch ord tr.length with
+      | some how =>
+        showMatRes ts.length tr.length
+          (genMat (tokenLeaf (leaf.startsWith "c") k) (0, (k, 12, false)) false Dir.empty ts tr how .written).2
+      | none => "bad-how"
+    | _, _, _ => "bad-args"
+  | "asm" :: "ghist" :: evs =>
+    match evs.mapM (parseEvent? (fun c k ts tr => ((c, k), ts, tr)) slS.key (fun i => i.2.2.length)) with
+    | some evs => runHistWith gstep (fun i r => showMatRes i.2.1.length i.2.2.length r) inpOfEvent evs
+    | none => "bad-event"
   | ["asm", "vec", k, mp, w, ch, ord, es] =>
     match parseTEs? es, k.toNat? with
     | some es, some k =>
